@@ -121,6 +121,7 @@ func main() {
 		noEv     = flag.Bool("noevidence", false, "do not write evidence/replay files (used by self-tests on scratch copies)")
 		manifest = flag.Bool("manifest", false, "print MANIFEST.json generated from the property registry")
 		verbose  = flag.Bool("v", false, "print discharged obligations too")
+		dump     = flag.Bool("dump", false, "run every registered rule and print the violated/undecided obligations as JSON")
 		allProps = flag.Bool("all", false, "run every claimed property in one process (no evidence written) and print, as JSON, the non-known violated/undecided obligations per property")
 	)
 	flag.Parse()
@@ -130,6 +131,27 @@ func main() {
 	}
 	if *allProps {
 		os.Exit(runAll(*repo, *verif))
+	}
+	if *dump {
+		// every registered rule, violated/undecided obligations only, as JSON (used by tools/record_fixes.py)
+		c := load(*repo)
+		var ids []string
+		for id := range allRules {
+			ids = append(ids, id)
+		}
+		sort.Strings(ids)
+		var out []map[string]string
+		for _, id := range ids {
+			for _, o := range runRule(c, id).Obligations {
+				if o.Status == Violated || o.Status == Undecided {
+					out = append(out, map[string]string{"rule": o.Rule, "key": o.Key, "status": o.Status.String(), "pos": o.Pos, "detail": o.Detail})
+				}
+			}
+		}
+		b, _ := json.MarshalIndent(out, "", " ")
+		os.Stdout.Write(b)
+		fmt.Println()
+		return
 	}
 	if *replay != "" {
 		os.Exit(doReplay(*replay, *repo, *verif))
